@@ -74,7 +74,7 @@ impl Drop for Jail {
     }
 }
 
-fn encode_pkg(entries: &[Value], enc: &str, jail: &Path) -> Vec<u8> {
+fn encode_pkg(entries: &[Value], enc: &str, jail: &Path, lie: Option<u64>) -> Vec<u8> {
     let flat = enc != "plain";
     let n = entries.len();
     let mut dirnames: Vec<Vec<u8>> = vec![];
@@ -114,7 +114,7 @@ fn encode_pkg(entries: &[Value], enc: &str, jail: &Path) -> Vec<u8> {
     }
     archive.extend_from_slice(&newc_entry("TRAILER!!!", 0, &[], 0));
     let bv = |xs: &Vec<Vec<u8>>| Value::Array(xs.iter().map(|x| json!(x)).collect());
-    let h: Vec<(u32, u32, Value)> = vec![
+    let mut h: Vec<(u32, u32, Value)> = vec![
         (1000, T_STRING, json!(["hostile".as_bytes()])), (1001, T_STRING, json!(["1".as_bytes()])), (1002, T_STRING, json!(["1".as_bytes()])),
         (1004, T_I18N, json!(["s".as_bytes()])), (1022, T_STRING, json!(["noarch".as_bytes()])),
         (1117, T_STRARR, bv(&basenames)), (1118, T_STRARR, bv(&dirnames)), (1116, T_INT32, json!(dirindex)),
@@ -123,6 +123,11 @@ fn encode_pkg(entries: &[Value], enc: &str, jail: &Path) -> Vec<u8> {
         (1035, T_STRARR, bv(&digests)), (1034, T_INT32, json!(vec![1_600_000_000u32; n])), (1037, T_INT32, json!(vec![0u32; n])),
         (1036, T_STRARR, bv(&links)), (5011, T_INT32, json!([8])),
     ];
+    if let Some(v) = lie {
+        // a header that claims (64-bit) file sizes the archive does not have
+        h.retain(|e| e.0 != 1028);
+        h.push((5008, T_INT64, json!(vec![v; n])));
+    }
     rawhdr::assemble(&lead_bytes("hostile"), &encode_wellformed(62, &[]), &encode_wellformed(63, &h), &archive, 0)
 }
 
@@ -175,11 +180,21 @@ pub fn run(args: &Args) {
             let c: Value = serde_json::from_str(line).unwrap();
             let j = Jail::new(&format!("g{i}"));
             let flat = c["flat"].as_bool().unwrap_or(false);
-            let bytes = encode_pkg(c["entries"].as_array().unwrap(), c["mode"].as_str().unwrap_or("plain"), &j.jail);
+            let bytes = encode_pkg(c["entries"].as_array().unwrap(), c["mode"].as_str().unwrap_or("plain"), &j.jail, None);
             let (outcome, outside, inside) = run_extract(&j, &bytes);
             let ev = if outcome.starts_with("panic") { "Panic" } else { "Extract" };
             t.emit(json!({"event":ev,"case":i,"entries":c["entries"],"flat":flat,"mode":c["mode"],"naive_escapes":c["naive_escapes"],"model_benign":c["benign"],
-                          "outcome":outcome,"outside_diff":outside,"inside":inside}));
+                          "outcome":outcome,"outside_diff":outside,"inside":inside,"lying":false}));
+            if i % 4 == 0 && !c["entries"].as_array().unwrap().is_empty() {
+                // the same package under a header whose size fields lie (hostile in another way: contained, and no panic)
+                let v = [u64::MAX, 1u64 << 63, u64::MAX - 2, (1u64 << 63) + 4096][(i / 4) % 4];
+                let j = Jail::new(&format!("l{i}"));
+                let bytes = encode_pkg(c["entries"].as_array().unwrap(), c["mode"].as_str().unwrap_or("plain"), &j.jail, Some(v));
+                let (outcome, outside, inside) = run_extract(&j, &bytes);
+                let ev = if outcome.starts_with("panic") { "Panic" } else { "Extract" };
+                t.emit(json!({"event":ev,"case":i,"entries":c["entries"],"flat":flat,"mode":c["mode"],"naive_escapes":c["naive_escapes"],"model_benign":c["benign"],
+                              "outcome":outcome,"outside_diff":outside,"inside":inside,"lying":true,"claimed_size":v.to_string()}));
+            }
         }
     }
     // benign: packages built by the library
